@@ -420,6 +420,9 @@ func verifC03(K int) {
 	q2 := vkit.WithKey(vkit.Tx("q2", nil, nil), "bk", "k1", []byte("p3"), 0, []byte("q2"))
 	// p5: inputs [confirmed root/1, pending p1/0] in that order (depends on p1, conflicts with p3 and p4)
 	p5 := vkit.Tx("p5", []*protos.TxInput{vkit.In(root, 1, "B", five), vkit.In([]byte("p1"), 0, "C", x)}, []*protos.TxOutput{vkit.Out("A", new(big.Int).Add(five, x), 0)})
+	// qd deletes k1 at p3's version (a delete marker is a write like any other), qr re-creates it after qd
+	qd := vkit.WithKey(vkit.Tx("qd", nil, nil), "bk", "k1", []byte("p3"), 0, []byte{0})
+	qr := vkit.WithKey(vkit.Tx("qr", nil, nil), "bk", "k1", []byte("qd"), 0, []byte("qr"))
 	rootA, rootB := string(root)+"/0", string(root)+"/1"
 	fam := []c03tx{
 		{p1, []string{rootA}, []string{"k1@"}, "k1", nil},
@@ -429,6 +432,8 @@ func verifC03(K int) {
 		{q1, nil, []string{"k1@p3"}, "k1", []int{2}},
 		{q2, nil, []string{"k1@p3"}, "k1", []int{2}},
 		{p5, []string{rootB, "p1/0"}, nil, "", []int{0}},
+		{qd, nil, []string{"k1@p3"}, "k1", []int{2}},
+		{qr, nil, []string{"k1@qd"}, "k1", []int{7}},
 	}
 	// oracle state
 	unspent := map[string]bool{rootA: true, rootB: true}
